@@ -3,6 +3,7 @@ package mbapp
 import (
 	"context"
 	"fmt"
+	"math"
 	"runtime"
 	"sync/atomic"
 	"time"
@@ -63,7 +64,7 @@ func New[A p2p.Addr, Pub any](x p2p.SecureSwarm[A, Pub], mtu int, opts ...Option
 func (s *Swarm[A, Pub]) Ask(ctx context.Context, resp []byte, dst A, req p2p.IOVec) (int, error) {
 	ctx, cf := context.WithTimeout(ctx, maxAskWait)
 	defer cf()
-	if p2p.VecSize(req) > s.mtu {
+	if p2p.VecSize(req) > s.MTU() {
 		return 0, p2p.ErrMTUExceeded
 	}
 	// create ask in map
@@ -101,7 +102,7 @@ func (s *Swarm[A, Pub]) Ask(ctx context.Context, resp []byte, dst A, req p2p.IOV
 }
 
 func (s *Swarm[A, Pub]) Tell(ctx context.Context, dst A, msg p2p.IOVec) error {
-	if p2p.VecSize(msg) > s.mtu {
+	if p2p.VecSize(msg) > s.MTU() {
 		return p2p.ErrMTUExceeded
 	}
 	return s.send(ctx, dst, sendParams{
@@ -142,7 +143,16 @@ func (s *Swarm[A, Pub]) LookupPublicKey(ctx context.Context, x A) (Pub, error) {
 }
 
 func (s *Swarm[A, Pub]) MTU() int {
-	return s.mtu
+	return maxSize(s.mtu, s.inner.MTU()-HeaderSize)
+}
+
+// maxSize returns the size of the largest message which can be sent when every part carries
+// at most partSize bytes: the part count has to fit into the 16 bit field of the header.
+func maxSize(mtu, partSize int) int {
+	if partSize < 1 {
+		return -1
+	}
+	return min(mtu, math.MaxUint16*partSize)
 }
 
 func (s *Swarm[A, Pub]) ParseAddr(x []byte) (A, error) {
